@@ -812,3 +812,32 @@ Proof.
   exists (mkSS [] 0 100 1 (mkM 0 [] [] [] []) [] [] false 1 sm_ondisk false 0 false), 7.
   vm_compute. auto.
 Qed.
+
+(* first start after the import: the image is intact, it is loaded *)
+Lemma first_restart_loads dst old members on_disk_sm ondisk_init :
+  s_dummy old = false -> 0 < s_index old ->
+  restart_recover on_disk_sm false ondisk_init (get_processed dst old members) = RcLoaded.
+Proof.
+  intros Hd Hi. unfold restart_recover.
+  assert (Hs : is_shrunk_snapshot on_disk_sm false (get_processed dst old members) = false).
+  { unfold is_shrunk_snapshot, get_processed. cbn [s_witness s_dummy]. rewrite Hd.
+    destruct on_disk_sm; reflexivity. }
+  rewrite Hs. apply restart_loads_imported_image; assumption.
+Qed.
+
+(* every later start while the imported record is still the newest one: an
+   on-disk state machine has shrunk the image after its first recovery - the
+   shrunk image is NOT loaded (and nothing panics): the state machine keeps the
+   state it opened with. Regular / concurrent state machines never shrink and
+   load the intact image again (the log is replayed on top). *)
+Lemma later_restart_skips_shrunk_image dst old members ondisk_init :
+  s_dummy old = false -> 0 < s_index old ->
+  restart_recover true true ondisk_init (get_processed dst old members) = RcSkipped.
+Proof.
+  intros Hd Hi. unfold restart_recover, is_shrunk_snapshot, do_recover, get_processed.
+  cbn [s_index s_witness s_dummy s_imported s_ondisk negb orb]. rewrite Hd. cbn [orb].
+  destruct (s_index old <=? 0) eqn:E; [apply N.leb_le in E; lia|].
+  change shrunk_check_inspects_imported with true. cbn [orb andb].
+  unfold check_partial_on_disk. cbn [s_ondisk].
+  destruct (ondisk_init <? 0) eqn:E2; [apply N.ltb_lt in E2; lia|]. reflexivity.
+Qed.
